@@ -137,7 +137,7 @@ def check():
     o.assumptions = ["logos' SpannedIter yields consecutive, ascending byte ranges on char boundaries (third-party)", "ListArena::push_back/get/tail and iterator adaptors are uninterpreted",
                      "productions: induction hypothesis - every sub-parser called answers Ok((s', n)) only with the leaves of n being the tokens between its cursor and s', a helper that answers Err has appended nothing (each is itself checked as a production); memoize answers what its production answers (C12)"]
     o.bounds = {"control": "one arbitrary iteration of tokenize's loop per token kind; all paths of the accessors", "values": "unbounded"}
-    o.outside = ["the logos DFA (which ranges it yields)", "that the induction over the productions is well founded (the parser terminates) and the loops of repeat / intersperse beyond one iteration",
+    o.outside = ["the logos DFA (which ranges it yields)", "token-level termination (skip_trivia's loop, the logos DFA)",
                  "spans of compiler errors"]
     L = mirlib.Lemma(o)
     S = L.smt
@@ -261,7 +261,27 @@ def check():
                 bad.append(pr)
         structural("production %s: on every path, what it consumes is what its answer's leaves are (%d paths)" % (fp.name, n), not probs and n > 0,
                    probs[0] if probs else "production %s: no path decided" % fp.name)
-    o.extra["productions"] = {"functions": n_prod, "paths": n_paths}
+    # the list combinators: an invariant at every loop head (any number of iterations) instead of one iteration
+    n_str = 0
+    for cname in ("intersperse", "repeat"):
+        try:
+            fc = MM.one(r"^(grammar::)?%s$" % cname)
+            n, probs = prodlemma.check_loops(fc, MM, E, L, o)
+        except Exception as exn:
+            o.inconc("combinator %s: %s" % (cname, repr(exn)[:160]))
+            continue
+        n_str += n
+        for pr in probs:
+            if pr not in bad:
+                bad.append(pr)
+        structural("%s: at every loop head the caller's list holds exactly the tokens between the entry cursor and the loop's cursor (%d stretches between loop heads)" % (cname, n),
+                   not probs and n >= 5, probs[0] if probs else "%s: loop structure not found" % cname)
+    o.extra["productions"] = {"functions": n_prod, "paths": n_paths, "combinator_stretches": n_str}
+    # ... and the induction is well founded: recursion consumes before it re-enters, list loops consume every round
+    try:
+        prodlemma.termination(MS, E, o, structural)
+    except Exception as exn:
+        o.inconc("parser termination: %s" % repr(exn)[:160])
     if n_prod < 40:
         o.inconc("only %d parser productions found in the MIR of oal-syntax (the grammar has about 60)" % n_prod)
 
